@@ -40,6 +40,18 @@ CHECKS = {
  "C09": dict(tech="TLC model checking of Literal.tla (structured literal space with exact BigNat values, ValueTwoWays); every literal replayed into parse_program and the ConstantKind / AddressAssignment node compared with the specified value and expectation class",
              text="Exhaustive over the structured literal space: bases 2/8/10/16 x magnitudes 0 .. 2^128 x signs x type prefixes x underscore patterns; reals (mantissa / fraction / exponent forms, overflow); durations of every unit with boundary and fractional values and compound forms; dates / times of day / date-and-times with every field at min, max, max+1 incl. leap years; strings incl. $-escapes; direct addresses (prefix x size x 1-3 multi-digit components incl. > 2^32). Accepted literals must have exactly the specified value; ill-formed or unrepresentable ones must be rejected with a syntax diagnostic.",
              ref="DESIGN.md 3.3, 5/C09", note="Correct rounding of REAL to binary64 is evaluated with Python fractions from the exact rational the specification gives."),
+ "C02": dict(tech="TLC model checking of Unit.tla (every documented rule as a predicate; BaseValid, GrowPreservesValid, PlantSound, SingleFaultIsSingle); every enumerated unit (base, growths, planted faults at every site) made concrete and analysed by stages::analyze / Project::semantic; verdict and problem codes compared with Violated(u) / Code(r)",
+             text="Exhaustive within bounds: the base unit, every validity-preserving growth and every planted fault (each rule's documented Fails shape at every applicable site: POU x variable class x statement role x control-structure wrapper ...), up to two edits; expectations are computed by evaluating the rule predicates on the resulting unit. Valid units must be accepted, single-fault units rejected with the rule's published code, multi-fault units rejected.",
+             ref="DESIGN.md 3.4, 5/C02"),
+ "C03": dict(tech="TLC model checking of Pipeline.tla (NoMasking, OrderIndependent, NothingLostBySort) per fault scenario over every arrangement of the declarations into files; the named deviations CollapseEqualNames / DropParseDiagsWhenAnalysisOk are shown to violate NoMasking; every arrangement and every file subset containing the fault analysed for real (analyze, Project::semantic twice, sampled `ironplcc check`)",
+             text="Exhaustive within bounds: lexical / syntax / context-free rule fault in each of five declarations and duplicate names (incl. a duplicate hiding an undefined variable) x every permutation x partition into <= 3 files x file order; eight-declaration sets in up to four files sampled; every subset of the files containing the faulty file; sampled real CLI runs. The verdict must be failure in every case; duplicate type / function block names must be diagnosed.",
+             ref="DESIGN.md 3.5, 5/C03"),
+ "C06": dict(tech="TLC model checking of Pipeline.tla (OrderIndependent: verdict is a function of the set of declarations) over every permutation x partition x file order; each arrangement analysed with analyze() in exactly that library order, Project::semantic twice, and repeated fresh `ironplcc check` processes with permuted arguments",
+             text="Exhaustive within bounds for sets of up to 5 declarations (valid sets, sets with a missing provider, single context-free faults): one verdict per set, and for single-fault sets one set of (code, declaration, labelled lexeme) across all arrangements; eight-declaration sets sampled; fresh processes give fresh hash seeds.",
+             ref="DESIGN.md 3.5, 5/C06"),
+ "C07": dict(tech="TLC enumeration of all digraphs (Recursion.tla; Cyclic via transitive closure cross-checked against the topological-numbering definition); each graph realised as function-block instance graph, structure graph, structure+alias graph and enumeration-alias chain and analysed; recursion code reported <=> Cyclic(E)",
+             text="Exhaustive for all digraphs on <= 3 nodes and all acyclic 4-node digraphs, 1/16 (quick) or all (thorough) of the cyclic 4-node digraphs, plus 440 random graphs on 8 and 12 nodes drawn by the same module; 3-4 realisations each.",
+             ref="DESIGN.md 3.4, 5/C07"),
 }
 NA = {
 }
